@@ -87,7 +87,9 @@ def var_record(std, maxden: int) -> dict:
         return rat_record(s, 1)
     v = s * s
     fr = Fraction(v).limit_denominator(maxden)
-    if abs(float(fr) - v) <= max(16 * abs(math.ulp(v)), 0.25 / float(maxden) ** 2):
+    # the candidate must reproduce the reported standard deviation itself to 1e-9 (a variance of
+    # 1e-16 where 0 is due, or NaN, is not the population standard deviation of the list)
+    if abs(float(fr) - v) <= max(16 * abs(math.ulp(v)), 0.25 / float(maxden) ** 2) and abs(math.sqrt(float(fr)) - s) <= 1e-9 * max(1.0, s):
         if abs(fr.numerator) < 2**30 and fr.denominator < 2**30:
             return {"k": "rat", "v": [fr.numerator, fr.denominator]}
         return TOK("skip")
